@@ -15,7 +15,7 @@ import keyword
 from typing import Dict, List, Optional, Set, Tuple
 
 from sa.cfg import CFG
-from sa.model import AnalysisError, Function, Repo, calls_in, const_str, dotted, norm, own_nodes, parent
+from sa.model import full, AnalysisError, Function, Repo, calls_in, const_str, dotted, norm, own_nodes, parent
 from sa.report import Report
 from sa.strshape import ALL, AStr, ID_CONT, ID_START, Interp, SAMPLES, Unsupported, uncaught_keywords
 
@@ -174,8 +174,13 @@ def _dedup_site(fn: Function, label: str, seen: str, rep: Report) -> None:
     whiles = []
     for w in [n for n in own_nodes(fn.node) if isinstance(n, ast.While)]:
         t = w.test
-        if isinstance(t, ast.Compare) and len(t.ops) == 1 and isinstance(t.ops[0], ast.In) and norm(t.comparators[0]) == seen:
-            whiles.append(w)
+        if isinstance(t, ast.Compare) and len(t.ops) == 1 and isinstance(t.ops[0], ast.In):
+            coll = norm(t.comparators[0])
+            derived = coll != seen and any(
+                isinstance(n, (ast.Assign, ast.AugAssign)) and norm(n.targets[0] if isinstance(n, ast.Assign) else n.target) == coll and seen in full(n.value)
+                for n in own_nodes(fn.node))
+            if coll == seen or derived:  # tested against the accumulating collection itself or a superset built from it
+                whiles.append(w)
     if not whiles:
         rep.violation("R20.2", sub0, f"{fn.fq}|dedup|{label}|no-loop",
                       f"no `while <name> in {seen}` loop: colliding names in this namespace are not renamed until unused (two spec names can end "
